@@ -37,3 +37,17 @@ Definition handle_spec (final : data) (o : pobs) : bool :=
 
 (* no request the service accepts leaves the replicas unable to apply their log *)
 Definition raw_spec (accepted crashed : bool) : bool := negb (accepted && crashed).
+
+(* membership changes on real meta services (MONITOR: observed, not proved; raft membership
+   is outside the model).  [s0]: metadata of the formed cluster; [last]: highest raft index
+   of an acknowledged command; [acked]: names of the databases whose creation was
+   acknowledged; [finals]: metadata of every node that is a member at the end.
+   Nothing acknowledged is lost: same non-zero cluster id, index not behind the last
+   acknowledged command, every acknowledged database present, all members equal. *)
+Definition member_spec (s0 : data) (last : N) (acked : list string) (finals : list data) : bool :=
+  forallb (fun f => (d_cluster f =? d_cluster s0) && negb (d_cluster f =? 0) && (last <=? d_index f) &&
+                    forallb (fun n => existsb (fun x => String.eqb (db_name x) n) (d_dbs f)) acked) finals &&
+  match finals with
+  | [] => false
+  | f0 :: t => forallb (fun f => data_eqb (canon f) (canon f0)) t
+  end.
